@@ -574,6 +574,16 @@ func c09BLS(r *mon.R, j c09Job) {
 			sigs[k][mi] = s
 		}
 	}
+	// many messages under one key ("all messages": hash-to-group defects that hit one message in a hundred)
+	for mi := 0; mi < 96; mi++ {
+		m := append([]byte(fmt.Sprintf("C09 message %d ", mi)), rng.Bytes(mi%7)...)
+		s, err := c.sch.Sign(e.sk(xs[0]), c09Cp(m))
+		if err != nil {
+			r.Violation("C09/bls/"+e.cb.name+"/Sign/error", "bls.Sign failed: "+err.Error(), map[string]any{"combination": e.cb.name, "secret": xs[0].Text(16), "msg": mon.Hex(m)})
+			break
+		}
+		c.judge("many-messages/honest", xs[0], m, s, fmt.Sprintf("m#%d", mi))
+	}
 	// full matrix: key k, message mi presented with signature of (k2, m2)
 	for k := range xs {
 		for mi := range msgs {
